@@ -50,6 +50,23 @@ func runC02(ctx *core.Ctx) {
 		c.Feed = pick(r, []string{"paced", "step", "step"})
 		execC02Early(ctx, c)
 	})
+	// back-pressure: a burst of more than 100 new-maximum rows while the trigger goroutine is held up by a full
+	// window output buffer (slow sink), then silence: every on-time row is still delivered
+	nbp := ctx.N(3, 24)
+	ctx.Cases("c02bp", nbp, 8, func(i int, r *rand.Rand) {
+		kind := []string{"tumbling", "sliding", "session"}[i%3]
+		c := &evCase{CaseRef: core.CaseRef{Stream: "c02bp", Index: i}, Kind: kind, SizeMs: 1000, SlideMs: 500, Pattern: "backpressure", Feed: "burst", Grouped: true}
+		c.WinOut = 1
+		c.SinkDelayMs = 15 + r.Intn(25)
+		t := int64(5000)
+		for j, n := 1, 200+r.Intn(200); j <= n; j++ {
+			t += 40 + int64(r.Intn(120))
+			c.Rows = append(c.Rows, evRow{ID: j, TS: t, K: plainKeys[r.Intn(2)], V: r.Intn(50)})
+		}
+		c.Tail = t + 10*c.SizeMs
+		c.buildSQL()
+		execC02Early(ctx, c)
+	})
 	nl := ctx.N(30, 1500)
 	ctx.Cases("c02late", nl, 4*workers(), func(i int, r *rand.Rand) {
 		execC02Late(ctx, genC02Late(core.CaseRef{Stream: "c02late", Index: i}, r))
